@@ -14,7 +14,25 @@ os.environ.setdefault("MKL_NUM_THREADS", "1")
 
 
 def _run_child(pid, scn, seed, outpath, replay_overrides=None, replay_only=False):
-    """executed in the forked child"""
+    """executed in the forked child: the work runs in a thread with a large stack (deep z3 term recursion)"""
+    import threading
+    sys.setrecursionlimit(100000)
+    threading.stack_size(1024 * 1024 * 1024)
+    err = []
+
+    def work():
+        try:
+            _run_child_inner(pid, scn, seed, outpath, replay_overrides, replay_only)
+        except BaseException:
+            err.append(traceback.format_exc())
+    t = threading.Thread(target=work)
+    t.start()
+    t.join()
+    if err:
+        raise RuntimeError(err[0])
+
+
+def _run_child_inner(pid, scn, seed, outpath, replay_overrides=None, replay_only=False):
     import torch
     torch.set_num_threads(1)
     torch.set_default_dtype(torch.float64)
